@@ -479,13 +479,22 @@ var c01Refs = []struct{ path, name string }{
 	{"html/template", "Template"}, {"math/rand", "Rand"}, {"{self}", "Local"},
 }
 
+// c01Chains: method expressions of the first entries of c01Refs — the package is referred to only below a longer selector
+// chain (`(*strings.Builder).Len`: the qualified identifier is the operand of another selector)
+var c01Chains = []string{"@ref.String", "(*@ref).Len", "@ref.String", "@ref.Read", "(*@ref).Len", "@ref.Err", "@ref.ServeHTTP", "@ref.MarshalJSON"}
+
 func genBodyItems(r *Rng, mod, self string, id *int) []PItem {
 	var items []PItem
 	n := 1 + r.Intn(6)
 	for i := 0; i < n; i++ {
 		*id++
 		k := *id
-		switch r.Intn(21) {
+		switch r.Intn(23) {
+		case 21, 22:
+			i := r.Intn(len(c01Chains))
+			ref := c01Refs[i]
+			form := Pick(r, []string{"var M%d = %s\n", "func N%d() { _ = %s }\n", "var O%d = []any{%s, nil}\n"})
+			items = append(items, PItem{K: "ref", S: fmt.Sprintf(form, k, c01Chains[i]), Path: ref.path, Name: ref.name})
 		case 0:
 			items = append(items, PItem{K: "block", S: fmt.Sprintf("func F%d() {}\n", k)})
 		case 1:
@@ -684,7 +693,7 @@ func init() {
 				return genFmtCase(r)
 			},
 			BatchRun: fmtBatch, ShrinkBudget: 40, MaxShrinks: 6,
-			Rule: "one package per case (directory p0 / api / v1) in modules with go directives 1.12, 1.18–1.24, patch releases (1.21.0, 1.23.4, 1.24.2) and release candidates (1.21rc2, 1.24rc1), and five module paths (with and without a dot, versioned); 1–3 types each rendering 1–6 snippets (in a fifth of the cases some of the types then answer ErrSkip: what they rendered stays in the file) from a declaration grammar (functions with odd whitespace and semicolon-joined statements, documented functions with blank lines and trailing comments, single and grouped vars, consts, struct types with tags and methods, grouped types, detached line and block comments, references through PkgExpose to 12 std and module-local packages, the package's own type); real Execute in child processes; compared: the written file with gofumpt∘SortImports∘parse applied to the model's assembled source (same library versions); oracle on the file: parses, opens with the generator comment, package clause, imports = referenced packages, declaration list = rendered declarations (printed spec by spec), gofmt and gofumpt fixed points",
+			Rule: "one package per case (directory p0 / api / v1) in modules with go directives 1.12, 1.18–1.24, patch releases (1.21.0, 1.23.4, 1.24.2) and release candidates (1.21rc2, 1.24rc1), and five module paths (with and without a dot, versioned); 1–3 types each rendering 1–6 snippets (in a fifth of the cases some of the types then answer ErrSkip: what they rendered stays in the file) from a declaration grammar (functions with odd whitespace and semicolon-joined statements, documented functions with blank lines and trailing comments, single and grouped vars, consts, struct types with tags and methods, grouped types, detached line and block comments, references through PkgExpose to 12 std and module-local packages — as types, and as operands of a longer selector chain (method expressions) —, the package's own type); real Execute in child processes; compared: the written file with gofumpt∘SortImports∘parse applied to the model's assembled source (same library versions); oracle on the file: parses, opens with the generator comment, package clause, imports = referenced packages, declaration list = rendered declarations (printed spec by spec), gofmt and gofumpt fixed points",
 		},
 	}})
 }
